@@ -92,6 +92,7 @@ struct Sys {
     ids: Vec<(String, BytesN<32>)>,
     nonce: i64,
     selfprop: bool,
+    nocancel: bool,
 }
 
 fn salt_bytes(e: &Env, s: i64) -> BytesN<32> {
@@ -101,7 +102,8 @@ fn salt_bytes(e: &Env, s: i64) -> BytesN<32> {
 impl Sys {
     /// `selfprop`: the controller itself is among the proposers (hence cancellers) it is constructed with -
     /// a state an operating controller reaches by a matured self-administration grant_role(controller, ...)
-    fn new(execs: &[String], min0: u32, selfprop: bool) -> Sys {
+    /// `nocancel`: before the judged history starts the only canceller gives the role up, so that NOBODY holds it
+    fn new(execs: &[String], min0: u32, selfprop: bool, nocancel: bool) -> Sys {
         let e = new_env(&LedgerCfg { seq: NOW0, ..Default::default() });
         let mut names = Names { fwd: Default::default() };
         for a in ACCTS {
@@ -121,7 +123,14 @@ impl Sys {
             e.register(TimelockController, (min0, soroban_sdk::vec![&e, names.get("p")], ex, None::<Address>))
         };
         names.insert("c", c.clone());
-        let mut sys = Sys { e, c, target, names, ids: vec![], nonce: 1, selfprop };
+        let mut sys = Sys { e, c, target, names, ids: vec![], nonce: 1, selfprop, nocancel: nocancel && !selfprop };
+        if sys.nocancel {
+            let (role, p, c2) = (Symbol::new(&sys.e, "canceller"), sys.names.get("p"), sys.c.clone());
+            let entry = sys.account_entry("p", &c2, "renounce_role", args(&sys.e, (role.clone(), p.clone())));
+            sys.e.set_auths(&[entry]);
+            sys.client().renounce_role(&role, &p);
+            sys.e.set_auths(&[]);
+        }
         // predecessors first
         for pass in 0..2 {
             for (name, _, pred, _) in OPTAB.iter() {
@@ -424,7 +433,7 @@ fn reset_event(sys: &Sys, execs: &[String], min0: u32) -> Value {
         optab.insert(name.to_string(), json!({"call": call, "pred": pred, "salt": salt}));
     }
     json!({"op": {"op": "reset", "id": "none", "call": "none", "who": "none", "auth": false, "delay": 0, "entry": false,
-                  "metas": [], "sub": "none", "ctxs": [], "xauth": [], "xskip": 0, "dt": 0, "execs": execs, "min0": min0, "selfprop": sys.selfprop},
+                  "metas": [], "sub": "none", "ctxs": [], "xauth": [], "xskip": 0, "dt": 0, "execs": execs, "min0": min0, "selfprop": sys.selfprop, "nocancel": sys.nocancel},
            "optab": Value::Object(optab), "deny": ["n"], "now": NOW0, "res": "ok", "err": 0, "obs": sys.obs()})
 }
 
@@ -448,7 +457,8 @@ fn main() {
                     None => b.ops.first().and_then(|o| o.get("m0")).and_then(|v| v.as_u64()).unwrap_or(1),
                 } as u32;
                 let selfprop = b.cfg.get("selfprop").and_then(|v| v.as_bool()).unwrap_or(false);
-                let mut sys = Sys::new(&execs, min0, selfprop);
+                let nocancel = b.cfg.get("nocancel").and_then(|v| v.as_bool()).unwrap_or(false);
+                let mut sys = Sys::new(&execs, min0, selfprop, nocancel);
                 t.reset(reset_event(&sys, &execs, min0));
                 for op in &b.ops {
                     let ev = sys.step(op);
@@ -468,7 +478,7 @@ fn main() {
                 };
                 let min0 = *pick(&mut r, &[0u32, 1, 1, 2]);
                 let selfprop = (run / 3) % 4 == 3;
-                let mut sys = Sys::new(&execs, min0, selfprop);
+                let mut sys = Sys::new(&execs, min0, selfprop, (run / 3) % 4 == 1);
                 let mut last = reset_event(&sys, &execs, min0);
                 t.reset(last.clone());
                 for _ in 0..len {
